@@ -47,7 +47,15 @@ class Capture:
 
 
 def gen_block(r):
-    style = r.choice(["random", "all-values", "quotes", "text", "zeros", "high"])
+    style = r.choice(["random", "all-values", "quotes", "text", "zeros", "high", "tags", "tags"])
+    if style == "tags":
+        # intact delimiter text of the wire / log formats inside the block (inside one segment or across two)
+        b = bytearray(r.randrange(256) for _ in range(1024))
+        for _ in range(r.randrange(1, 6)):
+            t = r.choice([b"</DATAS>", b"<DATAS>", b"</PACKT>", b"<PACKT><SRCCN>", b"STATV", b"</DATAS></PACKT>", b"b'</DATAS>'", b"\" from ('10.0.0.1', 10022)", b"' from ("])
+            at = r.randrange(0, 1024 - len(t))
+            b[at : at + len(t)] = t
+        return style, bytes(b)
     if style == "random":
         return style, bytes(r.randrange(256) for _ in range(1024))
     if style == "all-values":
